@@ -297,7 +297,8 @@ class Honest:
                         self.failed_attempts = getattr(self, "failed_attempts", 0) + 1
                 with contextlib.redirect_stdout(io.StringIO()), contextlib.redirect_stderr(io.StringIO()):
                     if mode != "record":
-                        md = rl.in_toto_run(name, plist, plist, cmd, record_streams=streams, use_dsse=dsse, **sign_kw,
+                        # (a generous time limit: the step command is a Python process and the machine may be busy)
+                        md = rl.in_toto_run(name, plist, plist, cmd, record_streams=streams, use_dsse=dsse, timeout=120, **sign_kw,
                                             metadata_directory=links_arg, compact_json=rng.random() < 0.3,
                                             record_environment=rng.random() < 0.3, **kw)
                     else:
